@@ -99,8 +99,32 @@ func distinct2(pts []v2.Vec) int {
 // stress scene (features smaller than a coarse cube, spheres tangent to lattice
 // planes, surfaces through lattice nodes).
 func scene3(t *rapid.T, cells int) (sdf.SDF3, string, string, bool) {
-	kind := rapid.SampledFrom([]string{"program", "program", "small-far-parts", "lattice-tangent-spheres", "thin-plate", "corner-clipping-plane"}).Draw(t, "kind")
+	kind := rapid.SampledFrom([]string{"program", "program", "small-far-parts", "lattice-tangent-spheres", "thin-plate", "corner-clipping-plane", "lattice-aligned-box"}).Draw(t, "kind")
 	switch kind {
+	case "lattice-aligned-box":
+		// an exact box whose faces lie ON lattice planes: the corners of the cubes along a face evaluate to
+		// exactly 0 (which marching cubes counts as outside), the rest of such a cube is inside
+		n := float64(cells)
+		bb := sdf.Box3{Min: v3.Vec{}, Max: v3.Vec{X: n, Y: n, Z: n}}
+		cal := &lat.Recorder3{S: lat.Const3{V: 1e-300, BB: bb}}
+		render.ToTriangles(cal, render.NewMarchingCubesOctree(cells))
+		ax := lat.AxesOf3(cal.Pts, 1e-9)
+		if len(ax.X) < 11 {
+			return nil, kind, "", false
+		}
+		// (the recorded axes hold cell corners and cube centres alternately: even indices are corners)
+		face := func(l string, axis []float64) (float64, float64) {
+			m := (len(axis) - 1) / 2
+			// at least two cells thick: a lattice node strictly inside
+			i := rapid.IntRange(1, m-3).Draw(t, l+".lo")
+			j := rapid.IntRange(i+2, m-1).Draw(t, l+".hi")
+			return axis[2*i], axis[2*j]
+		}
+		var lo, hi v3.Vec
+		lo.X, hi.X = face("x", ax.X)
+		lo.Y, hi.Y = face("y", ax.Y)
+		lo.Z, hi.Z = face("z", ax.Z)
+		return exactBox3{lo, hi, bb}, kind, fmt.Sprintf("box %v..%v with faces on lattice planes", lo, hi), true
 	case "corner-clipping-plane":
 		// the emptiness test of a cube compares the centre value with the half diagonal: the decisive
 		// inputs are surfaces that clip a cube by a sliver at one corner, normal along the cube diagonal.
@@ -265,6 +289,16 @@ func TestOctreeLosesNothing(t *testing.T) {
 		if !same {
 			rec.Violation(t, "MarchingCubesOctree:differs-from-unpruned-render", "%d cells, scene [%s] %s: octree render has %d triangles, the unpruned render of the same lattice (field scaled by 2^-%d) has %d; evaluated %d vs %d points", cells, kind, desc, len(tb), k, len(tsc), nb, ns)
 		}
+		// the pair above shares whatever both renders do to cubes with exactly-zero corners (scaling keeps a
+		// zero a zero): for the aligned boxes the mesh itself is judged as well - a closed solid well inside
+		// the lattice must come out non-empty and closed (every directed edge matched by its reverse)
+		if kind == "lattice-aligned-box" {
+			if len(tb) == 0 {
+				rec.Violation(t, "MarchingCubesOctree:lattice-aligned-box:no-triangles", "%d cells, %s: the octree renderer emitted nothing", cells, desc)
+			} else if r := mesh.Analyze3(tb, 1e-6*res); r.OpenEdges > 0 {
+				rec.Violation(t, "MarchingCubesOctree:lattice-aligned-box:open-edge", "%d cells, %s: %d directed edges without a reverse edge (%d triangles): cubes along the faces were lost", cells, desc, r.OpenEdges, r.Tris)
+			}
+		}
 		rec.Case(nb < ns && len(tsc) > 0, ev.Key(kind, desc, cells), "octree:"+kind, fmt.Sprintf("octree:pruned=%v", nb < ns))
 		rec.Add("octree:points-base", int64(nb))
 		rec.Add("octree:points-unpruned", int64(ns))
@@ -351,6 +385,24 @@ func scene2(t *rapid.T, cells int) (sdf.SDF2, string, string, bool) {
 		return lat.Rebox2{S: sdf.Transform2D(bx, m), BB: sdf.Box2{Min: v2.Vec{X: -L / 2, Y: -L / 2}, Max: v2.Vec{X: L / 2, Y: L / 2}}}, kind, fmt.Sprintf("bar thickness %g", th), true
 	}
 }
+
+// exactBox3: the exact distance field of an axis-aligned box given by its corners (no centre / size
+// arithmetic: a point on a face plane evaluates to exactly 0 there)
+type exactBox3 struct {
+	lo, hi v3.Vec
+	bb     sdf.Box3
+}
+
+func (b exactBox3) Evaluate(p v3.Vec) float64 {
+	dx := math.Max(b.lo.X-p.X, p.X-b.hi.X)
+	dy := math.Max(b.lo.Y-p.Y, p.Y-b.hi.Y)
+	dz := math.Max(b.lo.Z-p.Z, p.Z-b.hi.Z)
+	if dx <= 0 && dy <= 0 && dz <= 0 {
+		return math.Max(dx, math.Max(dy, dz))
+	}
+	return math.Sqrt(math.Pow(math.Max(dx, 0), 2) + math.Pow(math.Max(dy, 0), 2) + math.Pow(math.Max(dz, 0), 2))
+}
+func (b exactBox3) BoundingBox() sdf.Box3 { return b.bb }
 
 // plane3 / plane2: the half space n.p <= d as an exact distance field with a chosen bounding box
 type plane3 struct {
